@@ -333,6 +333,25 @@ theorem prob_correct {σ h : ℝ} (hσ : 0 < σ) (hh : 0 < h) {L j i : Nat} (hj 
     refine measureReal_mono (fun n hn => ?_) (measure_ne_top _ _)
     exact open_subset_decided _ (gridTable_nodup hh L) _ _ hget (subset_openCell hh n hn)
 
+/-- the same for ANY labelling of the grid: a table `c` with the same points (in any order, e.g. the Gray
+    relabelling of C15) that carries the point of column `j`, row `i` at label `l` -/
+theorem prob_correct_any_labelling {σ h : ℝ} (hσ : 0 < σ) (hh : 0 < h) {L j i : Nat} (hj : j < L) (hi : i < L)
+    (c : List (ℝ × ℝ)) (hmem : ∀ q, q ∈ c ↔ q ∈ gridTable h L) (hnd : c.Nodup) (l : Nat)
+    (hl : c[l]? = some (gpt h L j i)) :
+    (noise2 σ).real (correctNoise c (gpt h L j i) l) =
+      (1 - (cnt L j : ℝ) * Qg (h / σ)) * (1 - (cnt L i : ℝ) * Qg (h / σ)) := by
+  apply le_antisymm
+  · rw [← prob_Ac hσ hh]
+    refine measureReal_mono (fun n hn => ?_) (measure_ne_top _ _)
+    apply closedCell_subset hh hj hi n
+    rw [← closedCell_congr hmem]
+    exact decided_subset_closed _ _ _ hl hn
+  · rw [← prob_Ao hσ hh]
+    refine measureReal_mono (fun n hn => ?_) (measure_ne_top _ _)
+    apply open_subset_decided _ hnd _ _ hl
+    rw [openCell_congr hmem]
+    exact subset_openCell hh n hn
+
 /-- average probability of a correct decision over the `L²` points: `(1 − 2(1 − 1/L)·Q)²` -/
 theorem avg_correct {σ h : ℝ} (hσ : 0 < σ) (hh : 0 < h) {L : Nat} (hL : 1 ≤ L) :
     (∑ i ∈ Finset.range L, ∑ j ∈ Finset.range L,
